@@ -23,7 +23,8 @@ RULE = ('all 11 registered physics environments x {generalized, spring, '
         'distinct = (env, backend, action mode); non-trivial = the rollout '
         'contained at least one episode end or |qd| > 1')
 ASSUMPTIONS = [
-    'float32 as shipped; unit quaternions to 1e-4',
+    'float32 as shipped; unit quaternions to 2e-6 (observed <= 2e-7 on the '
+    'unchanged tree over all environments; the property gives no number)',
     'determinism: the same compiled function called twice with the same key '
     'and actions must return bitwise equal outputs; re-stepping from a saved '
     'state must reproduce the recorded successor bitwise',
@@ -141,7 +142,7 @@ def run(job, mon):
                     - 1).max())
   mon.err('unit_quaternion_at_reset:%s' % backend, rn)
   mon.check('reset_state_finite_and_unit',
-            rn <= 1e-4 and bool(jp.isfinite(s0.pipeline_state.q).all())
+            rn <= 2e-6 and bool(jp.isfinite(s0.pipeline_state.q).all())
             and bool(jp.isfinite(s0.pipeline_state.qd).all()),
             lambda: wit(quat_norm_err=rn))
   # reset is a pure function of the key
@@ -178,7 +179,7 @@ def run(job, mon):
     acts = jp.array(acts, dtype=jp.float32)
     fobs, fq, (fin, nrm, dones, qdmax, obs, rew, done) = roll(keys, acts)
     fin, nrm = np.asarray(fin), np.asarray(nrm)
-    bad = np.nonzero(~fin | ~(nrm <= 1e-4))[0]
+    bad = np.nonzero(~fin | ~(nrm <= 2e-6))[0]
     mon.count('ev:step_finite_and_unit', nsteps * nb - 1)
     mon.err('unit_quaternion:%s' % backend, float(np.nanmax(nrm)))
     mon.check('step_finite_and_unit', len(bad) == 0,
